@@ -1,13 +1,447 @@
-//! WebSocket half of the C15 harness (stub, filled in below).
+//! WebSocket half of the C15 harness: the real `compio_ws::WebSocketStream` (client and server role) on one
+//! compio runtime. compio-ws is sealed to `PollFd` transports, so the transport is a Unix socketpair; with
+//! `lim>0` a harness relay sits between two socketpairs and forwards at most `lim` bytes per read (for a plain
+//! WebSocket only once both opening handshakes are done, see `pump`), yielding `gap` times between chunks (fragmentation of frames, partial writes through small chunks and full socket
+//! buffers). `tls=ossl|rustls` puts the real compio-tls stream under the WebSocket (a buffering layer:
+//! the TLS session holds written records until flushed).
+//!
+//! After every step both tasks meet at a barrier, so a reply that the layer must flush *before yielding the
+//! item* (pong, close reply) cannot be pushed out by a later operation of the same task.
+
+use std::{
+    cell::{Cell, RefCell},
+    future::Future,
+    os::unix::net::UnixStream,
+    pin::Pin,
+    rc::Rc,
+    task::{Context, Poll, Waker},
+    time::Duration,
+};
+
+use compio_runtime::{Runtime, fd::PollFd};
 use compio_tls::{TlsAcceptor, TlsConnector};
+use compio_ws::{
+    WebSocketStream, accept_async, client_async,
+    tungstenite::{Error as WsError, Message},
+};
+use futures_util::{AsyncReadExt, AsyncWriteExt};
 use hx_common::*;
 
-pub fn gen_ws(_r: &mut Rng, _thorough: bool) -> Vec<String> {
-    vec!["ws tls=none lim=4096 gap=0".to_string()]
+use super::payload;
+
+pub fn gen_ws(r: &mut Rng, thorough: bool) -> Vec<String> {
+    let tls = *r.pick(&["none", "none", "ossl", "rustls"]);
+    let lim = *r.pick(&[0usize, 1, 7, 4096, 65536]);
+    let gap = r.below(3);
+    let mut lines = vec![format!("ws tls={tls} lim={lim} gap={gap}")];
+    let maxlen: u64 = match (lim, thorough) {
+        (1, false) => 600,
+        (1, true) => 6_000,
+        (7, false) => 5_000,
+        (7, true) => 70_000,
+        (_, false) => 70_000,
+        (_, true) => 1 << 20,
+    };
+    let n = r.range(0, 5);
+    for _ in 0..n {
+        let dir = if r.chance(1, 2) { "c2s" } else { "s2c" };
+        let kind = *r.pick(&["text", "bin", "bin", "ping"]);
+        let len = if kind == "ping" {
+            *r.pick(&[0u64, 1, 10, 124, 125])
+        } else {
+            match r.below(5) {
+                0 => *r.pick(&[0u64, 1, 124, 125, 126, 127]),
+                1 => *r.pick(&[65534u64, 65535, 65536, 65537]),
+                2 => r.range(0, 300),
+                _ => r.range(0, maxlen),
+            }
+            .min(maxlen)
+        };
+        lines.push(format!("msg {dir} {kind} {len} {}", r.below(1000)));
+    }
+    if r.chance(3, 4) {
+        lines.push(format!("wsclose {}", if r.chance(1, 2) { "c" } else { "s" }));
+    }
+    lines
 }
 
-pub fn exec_ws(_ra: &TlsAcceptor, _rc: &TlsConnector, _oa: &TlsAcceptor, _oc: &TlsConnector, case: &Case, ex: &mut Exec) {
-    for _ in &case.lines {
-        ex.out.push("todo".into());
+#[derive(Clone, Debug)]
+enum Step {
+    /// (this side sends?, kind, len, seed)
+    Msg(bool, String, usize, u64),
+    Close(bool),
+}
+
+#[derive(Clone, Debug, PartialEq)]
+enum Res {
+    NotReached,
+    Running,
+    Ok,
+    Mismatch(String),
+    Err(String),
+}
+
+fn body(kind: &str, len: usize, seed: u64) -> Vec<u8> {
+    let mut v = payload(len, seed);
+    if kind == "text" {
+        for b in v.iter_mut() {
+            *b = b'a' + (*b % 26);
+        }
+    }
+    v
+}
+
+fn mk_msg(kind: &str, len: usize, seed: u64) -> Message {
+    let b = body(kind, len, seed);
+    match kind {
+        "text" => Message::text(String::from_utf8(b).unwrap()),
+        "bin" => Message::binary(b),
+        "ping" => Message::Ping(b.into()),
+        o => panic!("kind {o}"),
+    }
+}
+
+fn same(m: &Message, kind: &str, want: &[u8]) -> bool {
+    let k = match m {
+        Message::Text(_) => "text",
+        Message::Binary(_) => "bin",
+        Message::Ping(_) => "ping",
+        Message::Pong(_) => "pong",
+        Message::Close(_) => "close",
+        Message::Frame(_) => "frame",
+    };
+    k == kind && m.clone().into_data().as_ref() == want
+}
+
+fn short(m: &Result<Message, WsError>) -> String {
+    match m {
+        Ok(Message::Text(t)) => format!("text[{}]", t.len()),
+        Ok(Message::Binary(b)) => format!("bin[{}]", b.len()),
+        Ok(Message::Ping(b)) => format!("ping[{}]", b.len()),
+        Ok(Message::Pong(b)) => format!("pong[{}]", b.len()),
+        Ok(Message::Close(_)) => "close".into(),
+        Ok(Message::Frame(_)) => "frame".into(),
+        Err(e) => format!("err:{e}"),
+    }
+}
+
+/// two-party barrier on one thread
+#[derive(Default)]
+struct Barrier {
+    arrived: Cell<usize>,
+    generation: Cell<u64>,
+    waker: RefCell<Option<Waker>>,
+}
+
+impl Barrier {
+    async fn wait(&self) {
+        let my_gen = self.generation.get();
+        if self.arrived.get() == 1 {
+            self.arrived.set(0);
+            self.generation.set(my_gen + 1);
+            if let Some(w) = self.waker.borrow_mut().take() {
+                w.wake();
+            }
+            return;
+        }
+        self.arrived.set(1);
+        std::future::poll_fn(|cx| {
+            if self.generation.get() != my_gen {
+                Poll::Ready(())
+            } else {
+                *self.waker.borrow_mut() = Some(cx.waker().clone());
+                Poll::Pending
+            }
+        })
+        .await
+    }
+}
+
+struct Yield(bool);
+impl Future for Yield {
+    type Output = ();
+
+    fn poll(mut self: Pin<&mut Self>, cx: &mut Context<'_>) -> Poll<()> {
+        if self.0 {
+            Poll::Ready(())
+        } else {
+            self.0 = true;
+            cx.waker().wake_by_ref();
+            Poll::Pending
+        }
+    }
+}
+
+/// counts the polls of the wrapped future; gives up (spin) above the cap
+struct Counted<F> {
+    f: Pin<Box<F>>,
+    polls: Rc<Cell<u64>>,
+    cap: u64,
+}
+
+impl<F: Future<Output = ()>> Future for Counted<F> {
+    type Output = bool; // false = spin
+
+    fn poll(mut self: Pin<&mut Self>, cx: &mut Context<'_>) -> Poll<bool> {
+        self.polls.set(self.polls.get() + 1);
+        if self.polls.get() > self.cap {
+            return Poll::Ready(false);
+        }
+        self.f.as_mut().poll(cx).map(|_| true)
+    }
+}
+
+type Sock = PollFd<UnixStream>;
+
+/// `coarse` : forward in large chunks while it returns true (plain WebSocket opening handshake: tungstenite
+/// deliberately rejects an HTTP upgrade that arrives in many tiny packets, `Error::AttackAttempt`)
+async fn pump(from: &Sock, to: &Sock, lim: usize, gap: u64, coarse: &dyn Fn() -> bool) {
+    let mut buf = vec![0u8; lim.max(65536)];
+    let (mut from, mut to) = (from, to);
+    loop {
+        let k = if coarse() { 65536 } else { lim };
+        let n = match from.read(&mut buf[..k]).await {
+            Ok(0) | Err(_) => break,
+            Ok(n) => n,
+        };
+        if to.write_all(&buf[..n]).await.is_err() {
+            break;
+        }
+        for _ in 0..gap {
+            Yield(false).await;
+        }
+    }
+    let _ = to.close().await;
+}
+
+async fn side(
+    is_client: bool,
+    sock: Sock,
+    tls: String,
+    conn: TlsConnector,
+    acc: TlsAcceptor,
+    steps: Vec<Step>,
+    res: Rc<RefCell<Vec<Res>>>,
+    barrier: Rc<Barrier>,
+    ready: Rc<Cell<u32>>,
+) {
+    res.borrow_mut()[0] = Res::Running;
+    let ws: Result<WebSocketStream<UnixStream>, String> = async {
+        if tls == "none" {
+            if is_client {
+                client_async("ws://localhost/", sock).await.map(|x| x.0).map_err(|e| e.to_string())
+            } else {
+                accept_async(sock).await.map_err(|e| e.to_string())
+            }
+        } else if is_client {
+            let t = conn.connect("localhost", sock).await.map_err(|e| format!("tls:{e}"))?;
+            client_async("ws://localhost/", t).await.map(|x| x.0).map_err(|e| e.to_string())
+        } else {
+            let t = acc.accept(sock).await.map_err(|e| format!("tls:{e}"))?;
+            accept_async(t).await.map_err(|e| e.to_string())
+        }
+    }
+    .await;
+    let mut ws = match ws {
+        Ok(w) => w,
+        Err(e) => {
+            res.borrow_mut()[0] = Res::Err(e);
+            return;
+        }
+    };
+    res.borrow_mut()[0] = Res::Ok;
+    ready.set(ready.get() + 1);
+    barrier.wait().await;
+    for (i, st) in steps.iter().enumerate() {
+        let slot = i + 1;
+        res.borrow_mut()[slot] = Res::Running;
+        let r: Res = match st {
+            Step::Msg(true, kind, len, seed) => match ws.send(mk_msg(kind, *len, *seed)).await {
+                Err(e) => Res::Err(e.to_string()),
+                Ok(()) if kind == "ping" => {
+                    let m = ws.read().await;
+                    match &m {
+                        Ok(x) if same(x, "pong", &body(kind, *len, *seed)) => Res::Ok,
+                        other => Res::Mismatch(format!("pinger got {}", short(other))),
+                    }
+                }
+                Ok(()) => Res::Ok,
+            },
+            Step::Msg(false, kind, len, seed) => {
+                let m = ws.read().await;
+                match &m {
+                    Ok(x) if same(x, kind, &body(kind, *len, *seed)) => Res::Ok,
+                    Err(e) => Res::Err(e.to_string()),
+                    other => Res::Mismatch(format!("reader got {}", short(other))),
+                }
+            }
+            Step::Close(true) => match ws.close(None).await {
+                Err(e) => Res::Err(e.to_string()),
+                Ok(()) => {
+                    let m = ws.read().await;
+                    match &m {
+                        Ok(Message::Close(_)) => Res::Ok,
+                        other => Res::Mismatch(format!("closer got {}", short(other))),
+                    }
+                }
+            },
+            Step::Close(false) => {
+                let m = ws.read().await;
+                match &m {
+                    Ok(Message::Close(_)) => Res::Ok,
+                    other => Res::Mismatch(format!("close responder got {}", short(other))),
+                }
+            }
+        };
+        let bad = r != Res::Ok;
+        res.borrow_mut()[slot] = r;
+        if bad {
+            return;
+        }
+        barrier.wait().await;
+    }
+    // both sides are past the last barrier: dropping the stream now is not part of the property
+    drop(ws);
+}
+
+thread_local! {
+    static RT: Runtime = Runtime::new().expect("compio runtime");
+}
+
+fn kv<'a>(toks: &'a [&'a str], k: &str) -> &'a str {
+    toks.iter().find_map(|t| t.strip_prefix(k).and_then(|r| r.strip_prefix('='))).unwrap_or_else(|| panic!("missing {k}"))
+}
+
+pub fn exec_ws(ra: &TlsAcceptor, rc: &TlsConnector, oa: &TlsAcceptor, oc: &TlsConnector, case: &Case, ex: &mut Exec) {
+    let t: Vec<&str> = case.lines[0].split_whitespace().collect();
+    let tls = kv(&t, "tls").to_string();
+    let lim: usize = kv(&t, "lim").parse().unwrap();
+    let gap: u64 = kv(&t, "gap").parse().unwrap();
+    let (conn, acc) = if tls == "ossl" { (oc.clone(), oa.clone()) } else { (rc.clone(), ra.clone()) };
+    let mut words = vec![];
+    let mut csteps = vec![];
+    let mut ssteps = vec![];
+    let mut total = 0u64;
+    for l in &case.lines[1..] {
+        let w: Vec<&str> = l.split_whitespace().collect();
+        match w[0] {
+            "msg" => {
+                let c2s = w[1] == "c2s";
+                let len: usize = w[3].parse().unwrap();
+                let seed: u64 = w[4].parse().unwrap();
+                total += len as u64;
+                words.push(format!("msg ok {} {}", w[2], len));
+                csteps.push(Step::Msg(c2s, w[2].to_string(), len, seed));
+                ssteps.push(Step::Msg(!c2s, w[2].to_string(), len, seed));
+            }
+            "wsclose" => {
+                let c = w[1] == "c";
+                words.push("wsclose ok".to_string());
+                csteps.push(Step::Close(c));
+                ssteps.push(Step::Close(!c));
+            }
+            o => panic!("bad ws line {o}"),
+        }
+    }
+    let n = csteps.len();
+    let resc = Rc::new(RefCell::new(vec![Res::NotReached; n + 1]));
+    let ress = Rc::new(RefCell::new(vec![Res::NotReached; n + 1]));
+    let pc = Rc::new(Cell::new(0u64));
+    let ps = Rc::new(Cell::new(0u64));
+    // every poll of a side is caused by a readiness event or a barrier wake; a side cannot need more
+    // polls than bytes moved (lim >= 1) times a small constant
+    let cap = 100_000 + 64 * (total + 4096 * (n as u64 + 2));
+    let end: Result<(bool, bool), ()> = RT.with(|rt| {
+        rt.block_on(async {
+            let barrier = Rc::new(Barrier::default());
+            let ready = Rc::new(Cell::new(0u32));
+            let (a0, a1) = UnixStream::pair().unwrap();
+            let relay: Pin<Box<dyn Future<Output = ()>>>;
+            let (csock, ssock);
+            if lim == 0 {
+                csock = PollFd::new(a0).unwrap();
+                ssock = PollFd::new(a1).unwrap();
+                relay = Box::pin(std::future::pending());
+            } else {
+                let (b0, b1) = UnixStream::pair().unwrap();
+                csock = PollFd::new(a0).unwrap();
+                ssock = PollFd::new(b0).unwrap();
+                let ra = PollFd::new(a1).unwrap();
+                let rb = PollFd::new(b1).unwrap();
+                let (rdy, plain) = (ready.clone(), tls == "none");
+                relay = Box::pin(async move {
+                    let coarse = move || plain && rdy.get() < 2;
+                    futures_util::future::join(pump(&ra, &rb, lim, gap, &coarse), pump(&rb, &ra, lim, gap, &coarse)).await;
+                    std::future::pending::<()>().await
+                });
+            }
+            let fc = Counted {
+                f: Box::pin(side(true, csock, tls.clone(), conn.clone(), acc.clone(), csteps, resc.clone(), barrier.clone(), ready.clone())),
+                polls: pc.clone(),
+                cap,
+            };
+            let fs = Counted {
+                f: Box::pin(side(false, ssock, tls.clone(), conn, acc, ssteps, ress.clone(), barrier, ready)),
+                polls: ps.clone(),
+                cap,
+            };
+            let main = futures_util::future::join(fc, fs);
+            let both = futures_util::future::select(Box::pin(main), relay);
+            match compio_runtime::time::timeout(Duration::from_secs(20), both).await {
+                Ok(futures_util::future::Either::Left((r, _))) => Ok(r),
+                _ => Err(()),
+            }
+        })
+    });
+    let resc = resc.borrow().clone();
+    let ress = ress.borrow().clone();
+    let detail = |what: &str| {
+        format!(
+            "{what} case=[{}] client={:?} server={:?} polls={}/{} cap={cap} end={:?}",
+            case.lines.join(" | "),
+            resc,
+            ress,
+            pc.get(),
+            ps.get(),
+            end
+        )
+    };
+    let spun = matches!(end, Ok((a, b)) if !a || !b);
+    let mut bad = false;
+    for i in 0..=n {
+        let okword = if i == 0 { "ws ok".to_string() } else { words[i - 1].clone() };
+        let word = okword.split(' ').next().unwrap().to_string();
+        let line = match (&resc[i], &ress[i]) {
+            (Res::Ok, Res::Ok) => okword,
+            (Res::Mismatch(m), _) | (_, Res::Mismatch(m)) => {
+                if !bad {
+                    ex.fail(if word == "wsclose" { "C15:close" } else { "C15:data-mismatch" }, detail(&format!("step {i}: {m}")));
+                }
+                format!("{word} mismatch")
+            }
+            (Res::Err(e), _) | (_, Res::Err(e)) => {
+                if !bad {
+                    ex.fail("C15:error", detail(&format!("step {i}: {e}")));
+                }
+                format!("{word} err")
+            }
+            (Res::NotReached, Res::NotReached) if bad => format!("{word} skip"),
+            _ => {
+                if !bad {
+                    ex.fail(if spun { "C15:spin" } else { "C15:stuck" }, detail(&format!("step {i}")));
+                }
+                if spun { format!("{word} spin") } else { format!("{word} stuck") }
+            }
+        };
+        if !line.contains(" ok") {
+            bad = true;
+        }
+        ex.out.push(line);
+    }
+    ex.tag(format!("ws:tls={tls}"));
+    ex.tag(format!("ws:lim={lim}"));
+    ex.nontrivial = resc[0] == Res::Ok && n > 0;
+    if std::env::var_os("C15_PROBE").is_some() {
+        eprintln!("{}", detail("probe"));
     }
 }
